@@ -477,6 +477,18 @@ impl Val {
 //   opt(T) seq(T) map(K,V) tup(T,..) ustruct:N nstruct:N(T) tstruct:N(T,..)
 //   struct:N{f:T,..} enum:N{V,V(T),V(T,U),V{f:T}}   (a 1-tuple variant is written V((T)) )
 
+/// Names that are not plain identifiers (empty, spaces, punctuation, non-ASCII) are written
+/// as `~<hex of the UTF-8 bytes>` so that every shape text can be parsed back.
+fn push_name(n: &str, out: &mut String) {
+    let plain = !n.is_empty() && n.bytes().all(|c| c.is_ascii_alphanumeric() || c == b'_');
+    if plain {
+        out.push_str(n);
+    } else {
+        out.push('~');
+        out.push_str(&crate::json::hex(n.as_bytes()));
+    }
+}
+
 impl Shape {
     pub fn text(&self) -> String {
         let mut s = String::new();
@@ -496,7 +508,7 @@ impl Shape {
             if i > 0 {
                 out.push(',');
             }
-            out.push_str(n);
+            push_name(n, out);
             out.push(':');
             x.text_into(out);
         }
@@ -527,38 +539,38 @@ impl Shape {
             }
             Shape::UnitStruct(n) => {
                 out.push_str("ustruct:");
-                out.push_str(n)
+                push_name(n, out)
             }
             Shape::NewtypeStruct(n, a) => {
                 out.push_str("nstruct:");
-                out.push_str(n);
+                push_name(n, out);
                 out.push('(');
                 a.text_into(out);
                 out.push(')')
             }
             Shape::TupleStruct(n, v) => {
                 out.push_str("tstruct:");
-                out.push_str(n);
+                push_name(n, out);
                 out.push('(');
                 Self::list(v, out);
                 out.push(')')
             }
             Shape::Struct(n, f) => {
                 out.push_str("struct:");
-                out.push_str(n);
+                push_name(n, out);
                 out.push('{');
                 Self::fields(f, out);
                 out.push('}')
             }
             Shape::Enum(n, vs) => {
                 out.push_str("enum:");
-                out.push_str(n);
+                push_name(n, out);
                 out.push('{');
                 for (i, v) in vs.iter().enumerate() {
                     if i > 0 {
                         out.push(',');
                     }
-                    out.push_str(v.name);
+                    push_name(v.name, out);
                     match &v.data {
                         VData::Unit => {}
                         VData::Newtype(s) => {
@@ -637,6 +649,22 @@ impl<'a> P<'a> {
             Err(format!("expected '{}' at {}", c as char, self.i))
         }
     }
+    /// a name: plain identifier or `~hex`
+    fn name(&mut self) -> Result<Name, String> {
+        self.ws();
+        if self.peek() == Some(b'~') {
+            self.i += 1;
+            let st = self.i;
+            while self.i < self.b.len() && (self.b[self.i] as char).is_ascii_hexdigit() {
+                self.i += 1;
+            }
+            let h = std::str::from_utf8(&self.b[st..self.i]).map_err(|e| e.to_string())?;
+            let bytes = crate::json::unhex(h).ok_or("bad hex in name")?;
+            let s = String::from_utf8(bytes).map_err(|e| e.to_string())?;
+            return Ok(leak(&s));
+        }
+        Ok(leak(self.ident()?))
+    }
     fn ident(&mut self) -> Result<&'a str, String> {
         self.ws();
         let st = self.i;
@@ -682,7 +710,7 @@ impl<'a> P<'a> {
             return Ok(v);
         }
         loop {
-            let n = leak(self.ident()?);
+            let n = self.name()?;
             self.eat(b':')?;
             let s = self.shape()?;
             v.push((n, s));
@@ -745,11 +773,11 @@ impl<'a> P<'a> {
             }
             "ustruct" => {
                 self.eat(b':')?;
-                Shape::UnitStruct(leak(self.ident()?))
+                Shape::UnitStruct(self.name()?)
             }
             "nstruct" => {
                 self.eat(b':')?;
-                let n = leak(self.ident()?);
+                let n = self.name()?;
                 self.eat(b'(')?;
                 let a = self.shape()?;
                 self.eat(b')')?;
@@ -757,19 +785,19 @@ impl<'a> P<'a> {
             }
             "tstruct" => {
                 self.eat(b':')?;
-                let n = leak(self.ident()?);
+                let n = self.name()?;
                 self.eat(b'(')?;
                 Shape::TupleStruct(n, self.list(b')')?)
             }
             "struct" => {
                 self.eat(b':')?;
-                let n = leak(self.ident()?);
+                let n = self.name()?;
                 self.eat(b'{')?;
                 Shape::Struct(n, self.fields()?)
             }
             "enum" => {
                 self.eat(b':')?;
-                let n = leak(self.ident()?);
+                let n = self.name()?;
                 self.eat(b'{')?;
                 let mut vs = Vec::new();
                 self.ws();
@@ -778,7 +806,7 @@ impl<'a> P<'a> {
                     return Ok(Shape::Enum(n, vs));
                 }
                 loop {
-                    let vn = leak(self.ident()?);
+                    let vn = self.name()?;
                     self.ws();
                     let data = match self.peek() {
                         Some(b'(') => {
